@@ -275,6 +275,7 @@ IntVerdict(e) ==
                          ELSE LET s == ToIntSem(x, e.ty) IN
                               B2S(~Panicked(e) /\ e.n.l = s[2] /\ (s[2] # << >> => e.n.neg = s[1]) /\ e.ok = s[3])
     [] e.op = "Rat" -> IF x.k # "fin" THEN B2S(Panicked(e))
+                       ELSE IF Panicked(e) THEN "reject:panic"
                        ELSE IF ~RatOK(x, e.num, e.den) THEN "reject"
                        ELSE LET fr == Decode(e.fr) IN B2S(fr.k = "fin" /\ CmpVal(fr, x) = 0)
     [] e.op = "FromRat" ->
